@@ -19,9 +19,16 @@ META = {'text': 'Proved for ALL graphs, changed sets, environments, states. (1) 
          'loader against the new source and current cache returns (or that re-evaluation fails and the entry kept its value), and the graph holds exactly its '
          'reads -- under three NAMED hypotheses on the reloads of that pass: NoMissInPass (excludes known finding F-C05d), NoRewireOntoPending (excludes known '
          'finding F-C05e), ReloadsReturn (no panic / divergence). The full statement without them is refuted on concrete witnesses '
-         '(C05_full_statement_false_miss, C05_full_statement_false_rewire), which are the two known findings reproduced on the real code by dedicated probes.',
+         '(C05_full_statement_false_miss, C05_full_statement_false_rewire), which are the two known findings reproduced on the real code by dedicated probes. '
+         '(3) Loading establishes and preserves Settled (Lemmas/Settle.lean): C05_load_settles_partial -- after one API load (whatever it returns, no fuel hypothesis) '
+         'and after the reloader has taken its AddAsset messages, every registered cached dynamic asset, those the load cached on the way included, holds what '
+         're-evaluating its loader returns and its node holds exactly what that re-evaluation reads -- under the NAMED hypotheses CleanLoad (on the path taken: plain '
+         'constructors, recorded look-ups, no nested load failure absorbed by a loader that then succeeds, no get_cached probe of a key that is cached before the load '
+         'returns) and NoProbedKeyFilled; C05_history_settled_partial: the same after every hot_reload of a history of load / get_or_insert / get_cached / contains / '
+         'remove / take (of a key nothing registered depends on: NoDependentOn, necessary by C05_remove_breaks_settled) / hot_reload steps from the empty cache; C05_load_edit_reload_converges_partial: load, edit, notify, hot_reload => settled under the new source. The '
+         'unrestricted load statement is refuted on concrete witnesses (C05_load_settles_false_absorbed, C05_load_settles_false_probe, C05_load_preserves_false_fill).',
  'design_ref': 'DESIGN.md §D C05, §E',
- 'note': 'partial: convergence is proved per pass (the conclusion re-establishes the hypotheses for the next pass except the rank function); that a first load '
-         'establishes Settled is checked on concrete states only; loadOwned edges, unrecorded reads (no_record / helper threads), cold types and static-mode '
+ 'note': 'partial: convergence is proved per pass (the conclusion re-establishes the hypotheses for the next pass except the rank function); that loads establish Settled '
+         'is proved under CleanLoad / NoProbedKeyFilled only (histories with clear / load_owned are not covered); loadOwned edges, unrecorded reads (no_record / helper threads), cold types and static-mode '
          'handle_events are outside the semantic theorem and decided by the correspondence + fresh-load oracle; HashSet iteration order is modelled as any order.',
  'technique': 'Lean 4 proof (read-set determinacy + topological induction over one update pass; graph invariants over all histories) + differential correspondence + fresh-load oracle'}
